@@ -10,6 +10,7 @@ import Driver.Util
 import GooseVerif.GL.Parse
 import GooseVerif.GL.Sem
 import GooseVerif.GL.Canon
+import GooseVerif.GL.Explore
 
 namespace Driver.GL
 open GooseVerif.GL
@@ -92,6 +93,13 @@ def step (s : St) (ws : List String) : St × String :=
       let gs := dedupSorted (((declBody d).map globalsOf).getD [])
       (s, "uses " ++ (if gs.isEmpty then "-" else ",".intercalate gs))
     | none => (s, "unknown")
+  | "explore" :: fn :: args =>
+    -- all interleavings at synchronisation points: outcomes <states> <truncated 0|1> <hex of outcome>…
+    match args.mapM parseArg with
+    | none => (s, "bad-op")
+    | some vs =>
+      let r := exploreCall { decls := s.decls } 200000 1000000 fn vs
+      (s, s!"outcomes {r.states} {if r.truncated then 1 else 0} " ++ " ".intercalate (r.outcomes.reverse.map (fun o => hexOrDash o.toUTF8.toList)))
   | "eval" :: fn :: args =>
     match args.mapM parseArg with
     | none => (s, "bad-op")
